@@ -11,7 +11,7 @@ RULE = ("pairs (trusted root, offered root) over a key pool with rotations and t
         "types root/key_mgr/other/missing; missing root delegation on either side; raw-only signatures; path mutations of either argument. "
         "non-trivial = both arguments are well-formed root metadata; distinct by pair")
 
-THEOREMS = ["verifyRoot_iff", "verifyRoot_trusted_rule_needed", "verifyRoot_own_rule_needed", "verifyRoot_version"]
+THEOREMS = ["verifyRoot_iff", "trusted_rule_needed", "own_rule_needed", "version_mismatch_error"]
 
 
 def root_pair(rng):
